@@ -1,5 +1,5 @@
 """C13 -- projective / Jacobian formulas equal the affine law on every control path."""
-from .. import grouptrace
+from .. import curvemachine, grouptrace
 from . import c07
 
 
@@ -20,3 +20,6 @@ def run(ctx):
                      name="CurveTable_proj")
     # secp256k1 Jacobian layer (private copy with toy constants)
     c07.curve_tables(ctx, secp=True, name="CurveTable_secp")
+    # spec -> code: TLC-generated programs; projective / Jacobian representatives are carried from step to step as
+    # the code produced them, the abstraction of every register must stay the spec's affine point
+    curvemachine.run_machine(ctx)
